@@ -186,6 +186,10 @@ func (e *Engine) arrayOp(n *Node, op *Op) error {
 		return e.viol("array #%d count %d before the op, model has %d", n.ID, a.Count(), cnt)
 	}
 	switch op.K {
+	case "ins", "rem", "remN", "appN", "grow", "pop":
+		n.Shape++ // positions of the children shift / slabs split or merge: handles of children are now "older than a restructuring"
+	}
+	switch op.K {
 	case "app", "ins":
 		idx := cnt
 		if op.K == "ins" {
@@ -489,6 +493,10 @@ func (e *Engine) mapOp(n *Node, op *Op) error {
 		return e.viol("map #%d count %d before the op, model has %d", n.ID, m.Count(), len(n.Ents))
 	}
 	cmp, hip := e.CB.Compare, e.CB.HashInput
+	switch op.K {
+	case "mset", "mrem", "mremN", "msetN", "mgrow", "mpop":
+		n.Shape++
+	}
 	switch op.K {
 	case "mset":
 		var km MV
